@@ -254,3 +254,26 @@ func init() {
 	addMutant(Mutant{Name: "c14-empty-om-keeps-parent", Property: "C14", File: "ygot/struct_validation_map.go",
 		Old: "\t\t\tcase om.Len() == 0:\n\t\t\t\tfVal.Set(reflect.Zero(fType.Type))\n", New: "\t\t\tcase om.Len() == 0:\n\t\t\t\tallChildrenPruned = false\n\t\t\t\tfVal.Set(reflect.Zero(fType.Type))\n", Expect: "keeps-parent"})
 }
+
+func init() {
+	// rules added after batch 5 of the seeded changes
+	addMutant(Mutant{Name: "c02-skip-empty-slice", Property: "C02", File: "ygot/render.go",
+		Old: "\t\tmapPaths, err := structTagToLibPaths(ftype, parent, preferShadowPath)\n\t\tif err != nil {\n\t\t\terrs.Add(fmt.Errorf(\"%v->%s: %v\", parent, ftype.Name, err))\n\t\t\tcontinue\n\t\t}\n\n\t\tswitch fval.Kind() {\n\t\tcase reflect.Map:",
+		New: "\t\tmapPaths, err := structTagToLibPaths(ftype, parent, preferShadowPath)\n\t\tif err != nil {\n\t\t\terrs.Add(fmt.Errorf(\"%v->%s: %v\", parent, ftype.Name, err))\n\t\t\tcontinue\n\t\t}\n\t\tif fval.Kind() == reflect.Slice && fval.Len() == 0 {\n\t\t\tcontinue\n\t\t}\n\n\t\tswitch fval.Kind() {\n\t\tcase reflect.Map:", Expect: "findUpdatedLeaves:continue"})
+	addMutant(Mutant{Name: "c04-binary-reslice", Property: "C04", File: "ygot/struct_validation_map.go",
+		Old: "\t\tsrcVal := srcField.Elem()\n\t\tns := reflect.Zero(srcVal.Type())", New: "\t\tsrcVal := srcField.Elem()\n\t\tns := srcVal.Slice3(0, 0, srcVal.Len())", Expect: "copyInterfaceField:Set"})
+	addMutant(Mutant{Name: "c05-unique-by-identity", Property: "C05", File: "ygot/struct_validation_map.go",
+		Old: "\t\t\tif reflect.DeepEqual(a.Index(i).Interface(), b.Index(j).Interface()) {", New: "\t\t\tif a.Index(i).Interface() == b.Index(j).Interface() {", Expect: "uniqueSlices:identity"})
+	addMutant(Mutant{Name: "c06-cache-key-flavourless", Property: "C06", File: "ytypes/string_type.go",
+		Old: "\t\tregexCache = c.posix\n", New: "", Expect: "compilePattern:"})
+	addMutant(Mutant{Name: "c06-bytes-then-runes", Property: "C06", File: "ytypes/string_type.go",
+		Old: "\tstrLen := uint64(utf8.RuneCountInString(stringVal))\n\tif !lengthOk(allowedRanges, strLen) {", New: "\tstrLen := uint64(len(stringVal))\n\tif !lengthOk(allowedRanges, strLen) {\n\t\tstrLen = uint64(utf8.RuneCountInString(stringVal))\n\t}\n\tif !lengthOk(allowedRanges, strLen) {", Expect: "lengthOk#"})
+	addMutant(Mutant{Name: "c08-format-from-data", Property: "C08", File: "ygot/pathstrings.go",
+		Old: "name = fmt.Sprintf(\"%s[%s=%s]\", name, k, v)", New: "name = fmt.Sprintf(name+\"[%s=%s]\", k, v)", Expect: "elemToString:format"})
+	addMutant(Mutant{Name: "c10-key-compare-fold", Property: "C10", File: "ytypes/node.go",
+		Old: "\t\t\tif keyAsString == pathKey {", New: "\t\t\tif fmt.Sprint(keyAsString) == fmt.Sprint(pathKey) {", Expect: "retrieveNodeList:key-compare"})
+	addMutant(Mutant{Name: "c10-decimal-float-div", Property: "C10", File: "ytypes/leaf.go",
+		Old: "\t\t\tfv, _ := new(big.Rat).SetFrac(big.NewInt(v.DecimalVal.Digits), prec).Float64()", New: "\t\t\tpf, _ := new(big.Float).SetInt(prec).Float64()\n\t\t\tfv := float64(v.DecimalVal.Digits) / pf", Expect: "sanitizeGNMI:float-of-int64"})
+	addMutant(Mutant{Name: "c16-parse-any-base", Property: "C16", File: "ytypes/util_types.go",
+		Old: "u, err := strconv.ParseUint(s, 10, int(t.Size())*8)", New: "u, err := strconv.ParseUint(s, 0, int(t.Size())*8)", Expect: "ParseUint#"})
+}
